@@ -23,7 +23,7 @@ TIERS = {
     # property -> tier -> number of seeds
     "C09": {"quick": 400, "thorough": 6000},
     "C18": {"quick": 250, "thorough": 4000},
-    "C05": {"quick": 400, "thorough": 6000},
+    "C05": {"quick": 1000, "thorough": 30000},
 }
 SELFTEST = {"quick": 8, "thorough": 48}
 
